@@ -63,7 +63,7 @@ ASSUMPTIONS = [
 ]
 
 KINDS = 'DABPM'
-TYPE_LETTER = {'D': b'D', 'A': b'A', 'B': b'B', 'P': b'P', 'M': b'M', 'N': b'M'}
+TYPE_LETTER = {'D': b'D', 'A': b'A', 'B': b'B', 'P': b'P', 'M': b'M', 'N': b'M', 'F': b'M', 'Z': b'M'}
 # kind 'N' (membytes leg only): a 2-byte memory image whose last byte is the size parameter
 
 
@@ -79,6 +79,9 @@ def payload(idx, n):
 def mem_pattern(idx, n, kind='M'):
     if kind == 'N':
         return bytes([0x55, n])
+    if kind in 'FZ':
+        # (fill leg only) a memory image of one repeated byte: FF looks like the leader tone, 00 like silence
+        return (b'\xff' if kind == 'F' else b'\0') * n
     return bytes(((i * 7 + idx * 29 + 3) % 251) for i in range(n))
 
 
@@ -156,7 +159,7 @@ def write_tape(s, tape, part, case, only=None):
 MSG_RE = re.compile(rb'^(.{8})\.([A-Z]) (Found|Skipped)\.\r?$', re.M)
 
 
-UNIT = {'D': 255, 'A': 255, 'B': 256, 'P': 256, 'M': 256, 'N': 256}
+UNIT = {'D': 255, 'A': 255, 'B': 256, 'P': 256, 'M': 256, 'N': 256, 'F': 256, 'Z': 256}
 
 
 def stream_len(kind, n):
@@ -385,7 +388,7 @@ def _run_tape(part, fmt, tape, orders, case):
                 # no file name given: the first data file (OPEN), the first program (LOAD), the first memory image
                 # (BLOAD) is found, files of other types before it are skipped
                 targets = []
-                for cls in ('D', 'ABP', 'MN'):
+                for cls in ('D', 'ABP', 'MNFZ'):
                     first = [i for i, (k, n) in enumerate(tape) if k in cls]
                     if first:
                         targets.append(('untitled', first[0]))
@@ -544,6 +547,14 @@ def legs(ctx):
                    bound='3-file CAS tapes (%d): tokenised/protected/memory file of more than one block (stream length '
                          'U+1, 2U, 2U+1), then a data/ASCII file (0, 7, U bytes), then a data or program file; read in '
                          'order and skip-to-second/third' % len(tapes)))
+    # memory images of one repeated byte (the last block of a file is padded with its last byte, too)
+    tapes = [((k, n), second) for k in 'FZ' for n in ((1, 64, 255, 256, 257, 300, 512, 600) if not q else (64, 256, 300, 600))
+             for second in (('D', 3), ('B', 40))]
+    out.append(Leg('fill', [('CAS', ['order', 'skip'], ch) for ch in chunked(tapes, 4)]
+                   + [('WAV', ['order', 'skip'], ch) for ch in chunked([t for t in tapes if t[0][1] in (64, 300)], 2)], work_tapes,
+                   exhaustive=True,
+                   bound='2-file tapes (%d CAS, %d WAV): a memory image of n bytes FF or 00 (n around and beyond the block size), then a data or '
+                         'program file; read in order and skip-to-second' % (len(tapes), len([t for t in tapes if t[0][1] in (64, 300)]))))
     # names that are prefixes of each other: same-kind and compatible-kind files, the shorter name looked up first
     tapes = [((k1, 5), (k2, 7), (k3, 3)) for k1 in KINDS for k2 in KINDS for k3 in (KINDS if not q else 'DB')]
     out.append(Leg('prefix-names', [('CAS+prefix', ['order', 'skip', 'wrap'], ch) for ch in chunked(tapes, 5)], work_tapes,
